@@ -44,3 +44,11 @@ pub fn dec(args: &[&str]) -> String {
     }
     out
 }
+
+pub fn dispatch(drv: &str, args: &[&str]) -> Option<String> {
+    match drv {
+        "enc" => Some(enc(args)),
+        "dec" => Some(dec(args)),
+        _ => None,
+    }
+}
